@@ -17,6 +17,10 @@ type faultPlan struct {
 	k     int    // index of the dependency call that fails; -1 = none
 	short bool   // for a Write: report one byte less, with an error
 	silent bool  // with short: report one byte less and NO error
+	shortFirstWrite bool // the first Write stores one byte less and reports that count with NO error
+	shortRead bool // for a Read: deliver half of what was asked, no error (a legal short read)
+	thenFail  bool // with shortRead: every later Read fails
+	applied   bool // the short read really delivered less than was asked
 	after []string // dependency calls issued after the failing one
 	hit   bool
 	kind  string // kind of the call that was failed
@@ -125,6 +129,12 @@ type recFile struct {
 
 func (f *recFile) Write(p []byte) (int, error) {
 	f.fs.trace = append(f.fs.trace, "W~"+hx(p))
+	if f.fs.plan.shortFirstWrite && !f.fs.plan.hit && len(p) > 0 {
+		f.fs.plan.hit = true
+		f.fs.calls = append(f.fs.calls, "write")
+		n, _ := f.File.Write(p[:len(p)-1])
+		return n, nil
+	}
 	if f.fs.dep("write") {
 		if f.fs.plan.short && len(p) > 0 {
 			n, _ := f.File.Write(p[:len(p)-1])
@@ -150,7 +160,18 @@ func (f *recFile) Truncate(n int64) error {
 	return f.File.Truncate(n)
 }
 func (f *recFile) Read(p []byte) (int, error) {
+	if f.fs.plan.shortRead && f.fs.plan.applied && f.fs.plan.thenFail {
+		f.fs.calls = append(f.fs.calls, "read")
+		return 0, errInjected
+	}
 	if f.fs.dep("read") {
+		if f.fs.plan.shortRead {
+			if len(p) < 2 {
+				return f.File.Read(p)
+			}
+			f.fs.plan.applied = true
+			return f.File.Read(p[:len(p)/2])
+		}
 		return 0, errInjected
 	}
 	return f.File.Read(p)
